@@ -4,7 +4,7 @@
    against the model [doc]; every $ref must resolve inside the document; the
    bytes must not depend on registration order or on the run; and what the
    document shows must be what the router serves. *)
-From DS Require Import Base Versions Router RouterSpec RouterProofs OpenApiGen RefClosure.
+From DS Require Import Base Versions Router RouterSpec RouterProofs OpenApiGen DocTags RefClosure.
 
 Definition V_AGREE : N := 0.
 Definition V_VIOLATION : N := 1.
@@ -14,11 +14,18 @@ Definition ncmp := N.compare.
 Notation ep := (endpoint N).
 
 Inductive dobs :=
-| DObs (ops : list (str * str * str)) (refs keys : list str) (same_perm same_twice : bool)
+| DObs (ops : list (str * str * str)) (refs keys : list str)
+       (* the names of the top-level tag array in document order, and the tag
+          array of each operation (by operation id) *)
+       (tags : list str) (optags : list (str * list str))
+       (same_perm same_twice : bool)
 | DPanic.
 
 Inductive dcase :=
-| CDoc (eps : list (str * ep)) (obs : list dobs) (found : list (list (option str)))
+| CDoc (eps : list (str * ep))
+       (* tags declared per endpoint (by operation id) and the configured names *)
+       (eptags : list (str * list str)) (cfg : list str)
+       (obs : list dobs) (found : list (list (option str)))
   (* the definitions gathered for a parameter schema (ReferenceVisitor):
      definition graph, the references of the schema itself, and the keys found
      under components.schemas (None: the real code panicked) *)
@@ -53,7 +60,15 @@ Definition model_ops (r : node N) (v : N) : option (list (str * str * str)) :=
   | DocPanic => None
   end.
 
-Fixpoint judge_versions (acc : list (decl N)) (r : node N) (v : N) (obs : list dobs)
+Fixpoint assoc_tags (m : list (str * list str)) (id : str) : list str :=
+  match m with
+  | [] => []
+  | (k, ts) :: m' => if str_eqb k id then ts else assoc_tags m' id
+  end.
+Definition strs_eqb (a b : list str) : bool := list_eqb str_eqb a b.
+
+Fixpoint judge_versions (eptags : list (str * list str)) (cfg : list str)
+         (acc : list (decl N)) (r : node N) (v : N) (obs : list dobs)
          (found : list (list (option str))) : list N :=
   match obs, found with
   | o :: obs', f :: found' =>
@@ -75,15 +90,24 @@ Fixpoint judge_versions (acc : list (decl N)) (r : node N) (v : N) (obs : list d
            (* only a method OpenAPI has no slot for may do that *)
            if forallb (fun d : decl N => openapi_method (str_upper (e_method (snd d)))) acc
            then V_VIOLATION else V_AGREE
-       | DObs ops refs keys same_perm same_twice =>
+       | DObs ops refs keys tags optags same_perm same_twice =>
            if negb (same_ops ops (spec_ops acc v) && forallb (fun x => mem_str x keys) refs
                     && same_perm && same_twice && served_ok)
            then V_VIOLATION
            else match model_ops r v with
-                | Some m => if same_ops ops m then V_AGREE else V_DIVERGE
+                | Some m =>
+                    (* the model: same operations; the tag array is the
+                       strictly sorted union of the configured names and the
+                       tags of the endpoints served at v; an operation carries
+                       its endpoint's tags unchanged *)
+                    if same_ops ops m
+                       && strs_eqb tags (doc_tags N ncmp (fun e => assoc_tags eptags (e_id e)) cfg r v)
+                       && forallb (fun it : str * list str => strs_eqb (snd it) (assoc_tags eptags (fst it))) optags
+                       && (length optags =? length ops)%nat
+                    then V_AGREE else V_DIVERGE
                 | None => V_DIVERGE
                 end
-       end) :: judge_versions acc r (v + 1) obs' found'
+       end) :: judge_versions eptags cfg acc r (v + 1) obs' found'
   | [], [] => []
   | _, _ => [V_MALFORMED]
   end.
@@ -110,13 +134,13 @@ Definition judge (c : dcase) : N :=
       | Err CE_fuel, _ => V_MALFORMED
       | _, _ => V_DIVERGE
       end
-  | CDoc eps obs found =>
+  | CDoc eps eptags cfg obs found =>
       match parse_all eps with
       | None => V_MALFORMED
       | Some acc =>
           match build N ncmp acc with
           | Err _ => V_MALFORMED       (* the harness only emits accepted tables *)
-          | Ok r => fold_left worse (judge_versions acc r 0 obs found) 0
+          | Ok r => fold_left worse (judge_versions eptags cfg acc r 0 obs found) 0
           end
       end
   end.
